@@ -768,6 +768,11 @@ class FunctionAnalysis:
 
     def _bound(self, a, pred, b, st):
         st = st.copy()
+        # what both sides have in common (the address of the array two pointers point into, a shared summand) says nothing about the comparison
+        common = {at: c for at, c in a.t.items() if b.t.get(at) == c}
+        if common:
+            cl = LF(0, common)
+            a, b = a.add(cl, -1), b.add(cl, -1)
         ia, ib = self.iv_lf(a, st), self.iv_lf(b, st)
         if pred == "eq":
             m = meet(ia, ib)
@@ -790,6 +795,7 @@ class FunctionAnalysis:
                 for dd in (d, d.scale(-1)):
                     if self.iv_lf(dd, st)[1] == 0:
                         st.facts[dd.key()] = min(st.facts.get(dd.key(), INF), -dd.k - 1)
+                        self._close(st, dd, st.facts[dd.key()])
             # exclude an endpoint
             if ib[0] == ib[1]:
                 if ia[0] == ib[0]:
@@ -820,7 +826,26 @@ class FunctionAnalysis:
         d = a.add(b, -1)
         if d.t:
             st.facts[d.key()] = min(st.facts.get(d.key(), INF), -d.k - off)
+            if self.pcells:
+                self._close(st, d, st.facts[d.key()])
         return st
+
+    def _close(self, st, d, ub, depth=0):
+        """a new difference fact  terms(d) <= ub  is also stated over what its cells are known equal to (`p < end`, `end == n`, `n == len - 2`
+        give `p - len <= -3`), two steps deep"""
+        if depth >= 2 or len(d.t) > 3:
+            return
+        for at, c in list(d.t.items()):
+            if at[0] != "cell":
+                continue
+            for eq in self._equal_forms(st, at):
+                r = LF(0, {a_: c_ for a_, c_ in d.t.items() if a_ != at}).add(LF(0, eq.t), c)
+                if not r.t or len(r.t) > 3 or at in r.t:
+                    continue
+                nub = ub - c * eq.k
+                if nub < st.facts.get(r.key(), INF):
+                    st.facts[r.key()] = nub
+                    self._close(st, r, nub, depth + 1)
 
     def _restrict(self, l, iv, st):
         if l is not None and len(l.t) == 1:
